@@ -28,6 +28,8 @@ NSM == <<"intermediary", "named">>
 RootTree == Root(NSM, <<>>, MapOf({
     Class(<<"K", "x">>, <<>>, MapOf({Field(<<"f", "fx">>, "I", <<>>)})),
     Class(<<"K$I", "x$i">>, <<>>, <<>>),
+    Class(<<"K$I$J", "x$i$j">>, <<>>, <<>>),
+    Class(<<"T", "t">>, <<>>, <<>>), Class(<<"T$I", "t$i">>, <<>>, <<>>), Class(<<"T$I$J", "t$i$j">>, <<>>, <<>>),      \* a second chain with the same simple names
     Class(<<"U", "">>, <<>>, MapOf({Field(<<"g", "gx">>, "I", <<>>)}))}))      \* a class without a named name that has a named member
 
 (* the diff on edge e of history family h; eid makes every edge's contribution distinguishable *)
